@@ -1,4 +1,5 @@
 import PharmpyModel.C16.FS
+import PharmpyModel.Core.Expr
 /-
   C16 — the file-system programs of
   `pharmpy/workflows/model_database/local_directory.py`
@@ -56,7 +57,7 @@ def pendingPath (k : String) : Path := metaDir k ++ [.s "PENDING"]
 def lockPath : Path := dbRoot ++ [.s ".lock"]
 def datasetsDir : Path := dbRoot ++ [.s ".datasets"]
 def hashDir (h : String) : Path := datasetsDir ++ [.s ".hash", .s h]
-def modelPath (k ext : String) : Path := keyDir k ++ [.s ("model." ++ ext)]
+def modelPath (k ext : String) : Path := keyDir k ++ [.model ext]
 def resultsPath (k : String) : Path := metaDir k ++ [.s "results.json"]
 def metadataPath (k : String) : Path := metaDir k ++ [.s "metadata.json"]
 
@@ -98,32 +99,39 @@ def parseDinfo : Content → Option (String × Nat)
 def writeModel (m : MDesc) (ref : Option Nat) : List Op :=
   [.create (modelPath m.key m.ext), .write (modelPath m.key m.ext) (.full (.model m.code ref))]
 
-/-- `LocalModelDirectoryDatabaseTransaction.store_model`, line by line. -/
+/-- `data_path.with_suffix('.datainfo')` for an index entry `data<N>.csv`. -/
+def dinfoOf : Seg → Seg
+  | .csv n => .dinfo n
+  | y => y
+
+/-- `store_model`, branch `h_dir.is_dir()`: the dataset is (believed to be) in
+    the database already; bind the model to the file the index names. -/
+def storeShared (m : MDesc) (fs : FS) : List Op × Except Err Unit :=
+  match children fs (hashDir m.dh) with
+  | [] => ([], .error .stopIteration)                    -- next(h_dir.iterdir())
+  | x :: _ =>
+    match get fs (datasetsDir ++ [dinfoOf x]) with
+    | some (.file c) =>
+      match parseDinfo c with                            -- DataInfo.read_json(dipath)
+      | none => ([], .error .jsonDecode)
+      | some (d, n) => (writeModel m (if d = m.di then some n else none), .ok ())
+    | _ => ([], .error .fileNotFound)
+
+/-- `store_model`, branch `else`: new index directory, index entry, dataset,
+    datainfo (last), then the model file. -/
+def storeFresh (m : MDesc) (fs : FS) : List Op × Except Err Unit :=
+  let n := highest fs + 1
+  (mkdirP fs dbRoot [.s ".datasets", .s ".hash", .s m.dh]
+    ++ [.create (hashDir m.dh ++ [.csv n]),
+        .create (datasetsDir ++ [.csv n]), .write (datasetsDir ++ [.csv n]) (.full (.csv m.dh)),
+        .create (datasetsDir ++ [.dinfo n]), .write (datasetsDir ++ [.dinfo n]) (.full (.dinfo m.di n))]
+    ++ writeModel m (some n), .ok ())
+
+/-- `LocalModelDirectoryDatabaseTransaction.store_model`. -/
 def storeModel (m : MDesc) : Prog Unit := fun fs =>
   if isFile fs (modelPath m.key m.ext) then ([], .ok ())
-  else if isDir fs (hashDir m.dh) then
-    match children fs (hashDir m.dh) with
-    | [] => ([], .error .stopIteration)
-    | x :: _ =>
-      -- data_path.with_suffix('.datainfo')
-      let dip : Path := datasetsDir ++ [match x with
-        | .csv n => .dinfo n
-        | y => y]
-      match get fs dip with
-      | some (.file c) =>
-        match parseDinfo c with
-        | none => ([], .error .jsonDecode)
-        | some (d, n) =>
-          if d = m.di then (writeModel m (some n), .ok ())
-          else (writeModel m none, .ok ())
-      | _ => ([], .error .fileNotFound)
-  else
-    let n := highest fs + 1
-    (mkdirP fs dbRoot [.s ".datasets", .s ".hash", .s m.dh]
-      ++ [.create (hashDir m.dh ++ [.csv n]),
-          .create (datasetsDir ++ [.csv n]), .write (datasetsDir ++ [.csv n]) (.full (.csv m.dh)),
-          .create (datasetsDir ++ [.dinfo n]), .write (datasetsDir ++ [.dinfo n]) (.full (.dinfo m.di n))]
-      ++ writeModel m (some n), .ok ())
+  else if isDir fs (hashDir m.dh) then storeShared m fs
+  else storeFresh m fs
 
 /-- `store_modelfit_results` (`destination.mkdir` finds the directory). -/
 def storeResults (m : MDesc) : Prog Unit := fun _ =>
